@@ -140,6 +140,21 @@ def regen_facts(ctx):
     except Exception as e:
         ctx.k_broken.append({"kind": "facts", "detail": "apiscan failed: %r" % (e,)})
         ok = False
+    # C04 / C17 facts: the aws-lc wrapper functions translated to ownership action lists; where `unsafe` and shared state occur
+    for modname, rel in (("ffiscan", "Ffi.lean"), ("srcscan", "Source.lean")):
+        try:
+            mod = __import__(modname)
+            text = mod.emit()[0]
+            path = os.path.join(LEAN, "PasetoModel", "Extracted", rel)
+            old = open(path).read() if os.path.exists(path) else None
+            if old != text:
+                tmp = path + ".tmp%d" % os.getpid()
+                open(tmp, "w").write(text)
+                os.replace(tmp, path)
+                ctx.note("facts changed: PasetoModel/Extracted/%s regenerated" % rel)
+        except Exception as e:
+            ctx.k_broken.append({"kind": "facts", "detail": "%s failed: %r" % (modname, e)})
+            ok = False
     # C19 facts: feature tables + cfg-gate scan (python)
     try:
         import featscan
